@@ -67,6 +67,20 @@ trait ShapeOps: Sized + OwnedLockable + LockableIntoInner + LockableGetMut {
 	fn inner_list(inner: <Self as LockableIntoInner>::Inner) -> Vec<D>;
 	fn getmut_write(inner: &mut <Self as LockableGetMut>::Inner<'_>, pos: usize, val: i64);
 	fn into_locks(self) -> Vec<M>;
+	/// (members whose raw mutex is locked right now, members)
+	fn locked_count(&self) -> (usize, usize);
+}
+
+fn is_locked(m: &M) -> bool {
+	use lock_api::RawMutex as _;
+	unsafe { m.raw().is_locked() }
+}
+
+fn vheld(when: &str, lc: (usize, usize)) {
+	log(format!(
+		"{{\"e\":\"vheld\",\"when\":\"{}\",\"locked\":{},\"total\":{}}}",
+		when, lc.0, lc.1
+	));
 }
 
 fn write_ref(r: &mut MutexRef<'_, D, PR>, path: &str, pos: usize, val: i64) {
@@ -92,6 +106,9 @@ impl ShapeOps for (M, M) {
 	fn into_locks(self) -> Vec<M> {
 		vec![self.0, self.1]
 	}
+	fn locked_count(&self) -> (usize, usize) {
+		(is_locked(&self.0) as usize + is_locked(&self.1) as usize, 2)
+	}
 }
 
 impl<const N: usize> ShapeOps for [M; N] {
@@ -107,6 +124,9 @@ impl<const N: usize> ShapeOps for [M; N] {
 	}
 	fn into_locks(self) -> Vec<M> {
 		self.into_iter().collect()
+	}
+	fn locked_count(&self) -> (usize, usize) {
+		(self.iter().filter(|m| is_locked(m)).count(), N)
 	}
 }
 
@@ -124,6 +144,9 @@ impl ShapeOps for Vec<M> {
 	fn into_locks(self) -> Vec<M> {
 		self
 	}
+	fn locked_count(&self) -> (usize, usize) {
+		(self.iter().filter(|m| is_locked(m)).count(), self.len())
+	}
 }
 
 impl ShapeOps for Box<[M]> {
@@ -139,6 +162,9 @@ impl ShapeOps for Box<[M]> {
 	}
 	fn into_locks(self) -> Vec<M> {
 		self.into_vec()
+	}
+	fn locked_count(&self) -> (usize, usize) {
+		(self.iter().filter(|m| is_locked(m)).count(), self.len())
 	}
 }
 
@@ -181,7 +207,10 @@ where
 		match op.o.as_str() {
 			"lockw" => {
 				let mut g = c.lock(key());
+				vheld("guard", c.child().locked_count());
 				S::guard_write(&mut g, op.pos, op.val);
+				drop(g);
+				vheld("after", c.child().locked_count());
 			}
 			x => panic!("values: op {x} not applicable to boxed"),
 		}
@@ -205,7 +234,10 @@ fn run_boxed_tuple(sc: &VScen, data: (M, M)) {
 	for op in &sc.ops {
 		if op.o == "lockw" {
 			let mut g = c.lock(key());
+			vheld("guard", c.child().locked_count());
 			<(M, M)>::guard_write(&mut g, op.pos, op.val);
+			drop(g);
+			vheld("after", c.child().locked_count());
 		}
 	}
 	match sc.dtor.as_str() {
@@ -217,8 +249,9 @@ fn run_boxed_tuple(sc: &VScen, data: (M, M)) {
 }
 
 macro_rules! owning_runner {
-	($name:ident, $coll:ident) => {
+	($name:ident, $coll:ident, $probe:expr) => {
 		fn $name<S: ShapeOps + 'static>(sc: &VScen, data: S, iter: Option<fn($coll<S>) -> Vec<M>>, ext: Option<fn(&mut $coll<S>, M)>) {
+			let probe: Option<fn(&$coll<S>) -> (usize, usize)> = $probe;
 			let mut c: $coll<S> = match sc.ctor.as_str() {
 				"new" => $coll::new(data),
 				"from" => $coll::from(data),
@@ -229,7 +262,14 @@ macro_rules! owning_runner {
 				match op.o.as_str() {
 					"lockw" => {
 						let mut g = c.lock(key());
+						if let Some(p) = probe {
+							vheld("guard", p(&c));
+						}
 						S::guard_write(&mut g, op.pos, op.val);
+						drop(g);
+						if let Some(p) = probe {
+							vheld("after", p(&c));
+						}
 					}
 					"getmut" => {
 						let mut inner = c.get_mut();
@@ -252,8 +292,8 @@ macro_rules! owning_runner {
 		}
 	};
 }
-owning_runner!(run_retry, RetryingLockCollection);
-owning_runner!(run_owned, OwnedLockCollection);
+owning_runner!(run_retry, RetryingLockCollection, Some(|c: &RetryingLockCollection<S>| c.child().locked_count()));
+owning_runner!(run_owned, OwnedLockCollection, None);
 
 fn run_reject(sc: &VScen) {
 	// a duplicate pair of references next to an owning member: the constructor must refuse the
@@ -395,7 +435,10 @@ fn run_boxed_built<S: ShapeOps + IntoIterator<Item = M> + 'static>(sc: &VScen, c
 	for op in &sc.ops {
 		if op.o == "lockw" {
 			let mut g = c.lock(key());
+			vheld("guard", c.child().locked_count());
 			S::guard_write(&mut g, op.pos, op.val);
+			drop(g);
+			vheld("after", c.child().locked_count());
 		}
 	}
 	match sc.dtor.as_str() {
